@@ -197,11 +197,11 @@ def nameWire (e : Text × NameTarget) : String :=
 
 def obsWire (o : Observable) : String :=
   "|".intercalate [
-    ";".intercalate (o.cells.map cellWire),
-    ";".intercalate (o.formulae.map fun (k, f) =>
+    " ".intercalate (o.cells.map cellWire),
+    " ".intercalate (o.formulae.map fun (k, f) =>
       dotted k ++ "~" ++ (match f with | some t => optVal t | none => "?")),
-    ";".intercalate (o.names.map nameWire),
-    ";".intercalate (o.ranges.map fun (k, r) =>
+    " ".intercalate (o.names.map nameWire),
+    " ".intercalate (o.ranges.map fun (k, r) =>
       match r with
       | some (a, mx) => "~".intercalate [dotted k, optVal a, matrixWire mx]
       | none => dotted k ++ "~?")]
